@@ -230,15 +230,23 @@ def run_case(hk, root, idx, base, workload, crash_at, scoped=True):
         out["listing"] = [{"id": m["id"], "route": m["route"], "target": m.get("target", ""), "state": m["state"], "attempt": m.get("attempt", 0),
                            "payload": base64.b64decode(m.get("payload_b64") or ""), "headers": m.get("headers") or {}} for m in listing]
         # offered again: leases of the dead process expire, then everything not settled must come out of a dequeue
+        # (a lease extended just before the kill lasts up to a second longer than the others, so the
+        # dequeues are repeated until every stored pull-route message has come out or 5 s have passed)
         time.sleep(1.6)
         got = []
-        for _ in range(4):
-            s, data = http_req(base + 1, "POST", "/pull/p/dequeue", json.dumps({"batch": 100, "lease_ttl": "30s"}),
-                               {"Authorization": "Bearer " + PTOK, "Content-Type": "application/json"})
-            items = (_js(data) or {}).get("items") or []
-            got.extend(items)
-            if not items:
+        expect = {m["id"] for m in listing if m["route"] == "/hooks/pull" and m["state"] in ("queued", "leased")}
+        t_end = time.time() + 3.4
+        while True:
+            for _ in range(4):
+                s, data = http_req(base + 1, "POST", "/pull/p/dequeue", json.dumps({"batch": 100, "lease_ttl": "30s"}),
+                                   {"Authorization": "Bearer " + PTOK, "Content-Type": "application/json"})
+                items = (_js(data) or {}).get("items") or []
+                got.extend(items)
+                if not items:
+                    break
+            if expect <= {it["id"] for it in got} or time.time() > t_end:
                 break
+            time.sleep(0.3)
         out["redelivered"] = [{"id": it["id"], "payload": base64.b64decode(it.get("payload_b64") or "")} for it in got]
     except (OSError, http.client.HTTPException) as e:
         out["problems"].append("restarted process does not answer: %r" % (e,))
